@@ -143,6 +143,11 @@ def jobs(tier, seed):
                             for row in S:
                                 row[-1] = 1
                         js.append(dict(base, id=f"lin-n{n}s{s}m{m}-{lname}-{ids}-{k}", mode="lin", S=S))
+    # DataFrames whose column labels are integers that differ from the column positions (ids are labels, not positions)
+    for n in (2, 3):
+        for labels, ids in (([1, 2, 3], [1]), ([2, 0, 1], [0]), ([5, 6, 7], [7]), ([1, 2, 3], [3, 1])):
+            js.append({"id": f"intlabels-n{n}-{''.join(map(str, labels))}-{''.join(map(str, ids))}", "mode": "intlabels", "n": n, "labels": labels, "idlabels": ids, "cap_ms": cap,
+                       "s": len(ids), "m": 3 - len(ids), "sens": [labels.index(i) for i in ids], "ids": "intlabel", "layout": "intlabels"})
     # histories: an already fitted instance is fitted again on data with another column layout (ids by name)
     for n in (2, 3):
         for (c1, c2) in ((["s", "a", "b"], ["a", "b", "s"]), (["a", "s", "b"], ["s", "b", "a"]), (["s", "t", "a"], ["a", "t", "s"])):
@@ -213,10 +218,12 @@ def run_job(job, deadline):
     tot = s + m
     use = [j for j in range(tot) if j not in sens]
     cols = [f"c{j}" for j in range(tot)]
+    if job.get("mode") == "intlabels":
+        cols = list(job["labels"])
 
     def run():
-        X = _build_X(job, "x", job["mode"] == "full")
-        X2 = _build_X(dict(job, n=2, S=[[1] * s, [0] * s] if job["mode"] == "lin" else None), "z", job["mode"] == "full")
+        X = _build_X(job, "x", job["mode"] in ("full", "intlabels"))
+        X2 = _build_X(dict(job, n=2, S=[[1] * s, [0] * s] if job["mode"] == "lin" else None), "z", job["mode"] in ("full", "intlabels"))
         alpha = real("alpha", 0, 1)
         ids = sens if job["ids"] == "pos" else [cols[j] for j in sens]
         wrap = (lambda A: A) if job["ids"] == "pos" else (lambda A: pd.DataFrame(A, columns=cols))
@@ -228,13 +235,19 @@ def run_job(job, deadline):
             cr1.set_params(sensitive_feature_ids=ids, alpha=1)
             cra = CorrelationRemover(sensitive_feature_ids=[], alpha=0.0)
             cra.set_params(sensitive_feature_ids=ids, alpha=alpha)
-        out1 = cr1.fit_transform(wrap(X))
-        cra.fit(wrap(X))
-        outa = cra.transform(wrap(X))
-        outz = cra.transform(wrap(X2))
+        try:
+            out1 = cr1.fit_transform(wrap(X))
+            cra.fit(wrap(X))
+            outa = cra.transform(wrap(X))
+            outz = cra.transform(wrap(X2))
+        except Exception as e:
+            return e
         return X, X2, alpha, out1, outa, outz, cra.beta_
 
     def on_ok(ctx, out):
+        if isinstance(out, Exception):
+            acc.exception_cex(ctx, out, signature=f"exception:{type(out).__name__}")
+            return
         X, X2, alpha, out1, outa, outz, beta = out
         acc.reach(ctx)
         out1 = np.asarray(out1, dtype=object)
@@ -322,7 +335,7 @@ def replay(cex):
     X = mat("x", n, job.get("S"))
     X2 = mat("z", 2, [[1] * s, [0] * s])
     alpha = float(F(mdl.get("alpha", "1")))
-    cols = [f"c{j}" for j in range(tot)]
+    cols = list(job["labels"]) if job.get("mode") == "intlabels" else [f"c{j}" for j in range(tot)]
     ids = sens if job["ids"] == "pos" else [cols[j] for j in sens]
     wrap = (lambda A: A) if job["ids"] == "pos" else (lambda A: pd.DataFrame(A, columns=cols))
     scale = max(1.0, float(np.abs(X).max()) ** 2)
